@@ -81,6 +81,9 @@ func finishCheck(id string, pc *propCfg, tier string, seed uint64, a *agg, start
 				order = append(order, k)
 			}
 			g.count++
+			if g.first.ReplayFile == "" && r.ReplayFile != "" {
+				g.first = r
+			}
 		}
 	}
 	// confirm each new violation group by replaying its file in a fresh process
